@@ -478,8 +478,33 @@ def split_outputs(lines, hists):
 WRAP = "-Wl,--wrap=malloc,--wrap=free"
 
 
+def translate_and_prove(ctx, groups):
+    """T1 + proof obligations: regenerate the translator groups from the working tree, then re-check the theorems (which
+    include `model = generated definition`).  A group that no longer translates, or a theorem that no longer checks against
+    the regenerated definitions, is a broken tie.  coq/Gen is shared by all checks: if another process regenerated the group
+    from another tree while the theorems were being checked, the step is repeated."""
+    sys.path.insert(0, os.path.join(vlib.TOOLS, "c2g"))
+    import genall
+    r = None
+    for attempt in range(3):
+        st = genall.run(list(groups))
+        nb, ob, di = len(ctx.broken), ctx.cov["obligations"], ctx.cov["discharged"]
+        for g, s_ in st.items():
+            ctx.log("c2g", g, s_)
+            if s_.startswith("FAILED"):
+                ctx.tie_broken("translator group " + g, s_)
+        r = ctx.props()
+        st2 = genall.run(list(groups))
+        if not any("(changed)" in v for v in st2.values()):
+            return r
+        ctx.log("coq/Gen was regenerated by another process during the proof step: repeating")
+        del ctx.broken[nb:]
+        ctx.cov["obligations"], ctx.cov["discharged"] = ob, di
+    return r
+
+
 def run(ctx):
-    ctx.props()
+    translate_and_prove(ctx, ["AllocC10"])
     v = ctx.variant(mpi="off", san=True)
     exe = ctx.cc([os.path.join(vlib.TOOLS, "harness", "c10_harness.c")], os.path.join(ctx.scratch, "c10_harness"), v, extra=(WRAP,))
     nh = 700 if ctx.quick else 12000
@@ -576,7 +601,10 @@ def run(ctx):
     ctx.notes["model_disagreements"] = ndis
     for ops in hists[2:7]:
         ctx.sample({"history": " ; ".join(" ".join(t)[:40] for t in ops[:6])})
-    ctx.cov["trusted_base"] = ["the model AllocModel.v of src/sc.c is hand-written (no translator); its pointer arithmetic, counting and table policy are exercised by the correspondence run",
+    ctx.cov["trusted_base"] = ["the model AllocModel.v of src/sc.c is hand-written; T1: the padding allocator's pointer arithmetic (sc_malloc_aligned / sc_realloc_aligned / sc_free_aligned) "
+                               "and sc_package_register's slot search / table growth are proved EQUAL to Gen/AllocC10.v, regenerated from the working tree on every run (tools/c2g + clang-14 JSON AST trusted; "
+                               "the generated definitions are validated through the model they are proved equal to, which the correspondence run executes); the counting statements and the remaining "
+                               "table policy are tied by the correspondence run only",
                                "malloc/free of libc: a fresh block disjoint from all live ones, content arbitrary (junk); the harness wraps malloc to choose raw mod 8",
                                "sc_package_rc_count_add is reached through src/sc_private.h (reference counters only move in debug builds otherwise)"]
     ctx.assumptions += ["histories satisfy the documented preconditions (legal_step): package -1 or registered, a block is freed/reallocated with the package it was obtained for, no use after free, writes inside the requested size",
